@@ -233,7 +233,7 @@ func (db *SingleBucketBackend) ensureMeta(
 	size int64,
 	mtime time.Time,
 ) (meta *Metadata, err error) {
-	existingMeta, err := db.metaStore.loadMeta(bucket, objectPath, size, mtime)
+	existingMeta, err := db.metaStore.loadMeta(bucket, objectPath, size, mtime, db.fs, objectPath)
 	if errors.Is(err, os.ErrNotExist) {
 		f, err := db.fs.Open(filepath.FromSlash(objectPath))
 		if err != nil {
